@@ -286,6 +286,12 @@ func checkState(c Case, st State) string {
 	if st.DeferOfFun {
 		return "defer bookkeeping is not restored (Run.DeferOfFun != nil)"
 	}
+	// recover() decides "is the function whose defers run the panicking one" by comparing
+	// Run.DeferOfFun with Run.PanicFun (builtin.go callRecover): a recorded frame must never
+	// be free for reuse, or a later unrelated call gets the same *Env and the test passes wrongly.
+	if st.PanicFunPooled || st.DeferOfFunPooled {
+		return "defer/recover bookkeeping points to a frame that was returned to the frame pool (Run.PanicFun / Run.DeferOfFun is in Run.Pool): a later call reuses it and recover() sees the old panic"
+	}
 	if c.Entry != "debug" {
 		if st.ExecFlags&fast.EFDebug != 0 || st.Signals.Debug != 0 || st.DebugDepth != 0 {
 			return "debugger mode is set although the evaluation was not started in single-step mode"
